@@ -73,6 +73,16 @@ def param_default(func, name):
     return None
 
 
+def param_default_term(project, func, name):
+    """The default of parameter `name` as a term (named constants resolved), or None."""
+    from sa import consts
+    from sa.symexec import _record_fields
+    d = param_default(func, name)
+    if d is None:
+        return None
+    return consts.const_eval(project, func.module, d, func.cls, 0, _record_fields)
+
+
 def split_alternatives(events) -> list:
     """Return / store events whose value is a selection between alternatives (a conditional expression, an
     if/elif chain assigning a local that is returned once, a helper with early returns) are split into one event
